@@ -60,7 +60,6 @@ func C14(r *report.Report, tier string) {
 		sums = append(sums, s)
 	}
 	r.Extra["harnesses"] = sums
-	r.Add("states", int64(r.NDistinct()))
 	r.Extra["bounds"] = map[string]int{"deviations": bound}
 	r.Assumptions = append(r.Assumptions, "the race detector's happens-before analysis (no weak-memory effects beyond it)", "workers run with GOMAXPROCS=1")
 }
